@@ -18,7 +18,7 @@ const DICT: [&str; 96] = [
     "{", "}", "(", ")", "[", "]", "[[", "]]", ",", ";", ":", ".", "..", "...", "|", "^", "<", "@", "&", "!", "--", "/*", "*/", "\"", "'", "'0101'B",
 ];
 
-pub const EXOTIC: [&str; 84] = [
+pub const EXOTIC: [&str; 88] = [
     "MY-CLASS ::= CLASS { &id INTEGER UNIQUE, &Type, &val INTEGER OPTIONAL } WITH SYNTAX { ID &id TYPE &Type [VAL &val] }",
     "obj1 MY-CLASS ::= { ID 1 TYPE INTEGER }",
     "obj2 MY-CLASS ::= { ID 2 TYPE BOOLEAN VAL 7 }",
@@ -107,6 +107,11 @@ pub const EXOTIC: [&str; 84] = [
     "CytA MY-CLASS ::= { CytB }\nCytB MY-CLASS ::= { CytA }\nCytY MY-CLASS ::= { CytA }\nCytZ MY-CLASS ::= { CytY }\nAaaT MY-CLASS ::= { CytZ }\nCytHolder ::= SEQUENCE { id MY-CLASS.&id ({CytZ}), id2 MY-CLASS.&id ({AaaT}) }",
     "Cyt-A ::= Cyt-B\nCyt-B ::= Cyt-A\nCyt-Y ::= Cyt-A\nCyt-Z ::= Cyt-Y\nAaa-T ::= Cyt-Z\ncyt-v Cyt-Z ::= 5\nCyt-S ::= SEQUENCE { a Cyt-Z, b SEQUENCE OF Aaa-T }",
     "cyu-a INTEGER ::= cyu-b\ncyu-b INTEGER ::= cyu-a\ncyu-y INTEGER ::= cyu-a\ncyu-z INTEGER ::= cyu-y\naaa-u INTEGER ::= cyu-z\nCyu-T ::= INTEGER (0..cyu-z)\nCyu-S ::= SEQUENCE { a INTEGER DEFAULT aaa-u }",
+    // ... the same with selection types, COMPONENTS OF, contained subtypes and actual parameters
+    "Cys-A ::= third < Cys-B\nCys-B ::= second < Cys-A\nCys-Y ::= first < Cys-A\nCys-Z ::= zeroth < Cys-Y\nAaa-S ::= minus < Cys-Z\nCys-H ::= SEQUENCE { a Cys-Z, b Aaa-S }",
+    "Cyc-Co-A ::= SEQUENCE { COMPONENTS OF Cyc-Co-B, a INTEGER }\nCyc-Co-B ::= SEQUENCE { COMPONENTS OF Cyc-Co-A, b INTEGER }\nCyc-Co-Y ::= SEQUENCE { COMPONENTS OF Cyc-Co-A }\nCyc-Co-Z ::= SET { COMPONENTS OF Cyc-Co-Y }\nAaa-Co ::= SEQUENCE { COMPONENTS OF Cyc-Co-Z, z NULL }",
+    "Cyc-In-A ::= INTEGER (Cyc-In-B)\nCyc-In-B ::= INTEGER (INCLUDES Cyc-In-A)\nCyc-In-Y ::= INTEGER (Cyc-In-A | 5)\nCyc-In-Z ::= SEQUENCE { a INTEGER (Cyc-In-Y) }\nAaa-In ::= IA5String (FROM (Cyc-In-S))\nCyc-In-S ::= IA5String (FROM (Aaa-In))",
+    "Cyc-Pa { T } ::= SEQUENCE { a T, b Cyc-Pb { T } OPTIONAL }\nCyc-Pb { T } ::= SEQUENCE { c Cyc-Pa { T } OPTIONAL }\nCyc-Pi ::= Cyc-Pa { INTEGER }\nAaa-Pi ::= Cyc-Pb { Cyc-Pi }",
 ];
 
 fn header(src: &mut Src, name: &str) -> String {
